@@ -1,15 +1,16 @@
 ---------------------------- MODULE TraceDocsMW ----------------------------
 (* Trace validation of the real spec / docs middlewares against DocsMW (C20). *)
-(* case  : one configuration (reset line: cfg)                               *)
-(* events: build {panic}                                                     *)
-(*         req {method, urlpath, noescape, next_called, same_method,          *)
+(* case  : one or several configurations whose handlers are all alive at once  *)
+(*         (reset line: cfgs)                                                 *)
+(* events: build {inst, panic}                                                *)
+(*         req {inst, method, urlpath, noescape, next_called, same_method,          *)
 (*              same_url, same_header, same_body, status, ctype, sha, ran,    *)
 (*              panic, slots [{name, occ}], specref}                          *)
 EXTENDS DocsMW, Json, IOUtils
 
 VARIABLES l, st, skipping, fails, cs
 
-RInit(e) == [cfg |-> e.cfg]
+RInit(e) == [cfgs |-> e.cfgs]     \* the instances of the case, all alive; events name theirs by inst
 
 HTMLType == "text/html; charset=utf-8"
 
@@ -28,7 +29,11 @@ SpecRefOK(cfg, e) ==
   (IsAPI(cfg) /\ cfg.specurl.kind # "default") =>
      /\ Len(e.specref) = 1
      /\ NoRawMeta(SlotCtx(cfg, "SpecURL"), e.specref[1])
-     /\ Recover(SlotCtx(cfg, "SpecURL"), e.specref[1]) = SpecURLText(cfg.specurl)
+     /\ LET ctx == SlotCtx(cfg, "SpecURL")
+            got == Recover(ctx, e.specref[1])
+            want == SpecURLText(cfg.specurl)
+        IN IF ctx = "url" THEN got = PctUnescape(want)      \* a URL attribute may spell bytes percent-encoded: same location
+           ELSE got = want
 
 OpAt(cfg, e) ==
   {i \in DOMAIN cfg.ops : e.method = "GET" /\ e.noescape /\ PathClean(e.urlpath) = OpPath(cfg, i)}
@@ -44,7 +49,7 @@ ReqWhy(cfg, e) ==
          [] who = "ui" ->
               IF e.next_called \/ e.ran # 0 THEN "ui-path-handed-on"
               ELSE IF e.status # 200 \/ e.ctype # HTMLType THEN "ui-answer-status-or-type"
-              ELSE IF ~SlotsOK(cfg, e) THEN "option-value-not-html-escaped"
+              ELSE IF ~SlotsOK(cfg, e) THEN "option-value-missing-or-not-html-escaped"
               ELSE IF ~SpecRefOK(cfg, e) THEN "page-does-not-reference-the-spec-location"
               ELSE "ok"
          [] who = "next" ->
@@ -61,12 +66,12 @@ ReqWhy(cfg, e) ==
 
 RAllowed(s, e) ==
   CASE e.ev = "build" -> ~e.panic
-    [] e.ev = "req"   -> ReqWhy(s.cfg, e) = "ok"
+    [] e.ev = "req"   -> ReqWhy(s.cfgs[e.inst], e) = "ok"
     [] OTHER -> FALSE
 
 RWhy(s, e) ==
   CASE e.ev = "build" -> "construction-panics"
-    [] e.ev = "req"   -> ReqWhy(s.cfg, e)
+    [] e.ev = "req"   -> ReqWhy(s.cfgs[e.inst], e)
     [] OTHER -> "unknown-event"
 
 RStep(s, e) == s
